@@ -430,3 +430,235 @@ Proof.
     unfold step_ok; repeat (split; [reflexivity|]); split; [|split; [apply grows_refl|split; [exact S|split; reflexivity]]].
     apply MK; msimp; auto; try apply grows_refl. rewrite Hpc. exact A8.
 Qed.
+
+(* ---- a rotation ---- *)
+Lemma alli_from_of_nth {A} (f : nat -> A -> bool) d l : forall i,
+  (forall j, (j < length l)%nat -> f (i + j)%nat (nth j l d) = true) -> alli_from f i l = true.
+Proof.
+  induction l as [|x l IH]; intros i H; cbn; [reflexivity|]. apply andb_true_iff. split.
+  - specialize (H 0%nat ltac:(cbn; lia)). rewrite Nat.add_0_r in H. exact H.
+  - apply IH. intros j Hj. specialize (H (S j) ltac:(cbn; lia)). replace (i + S j)%nat with (S i + j)%nat in H by lia. exact H.
+Qed.
+Lemma alli_of_nth {A} (f : nat -> A -> bool) d l : (forall j, (j < length l)%nat -> f j (nth j l d) = true) -> alli f l = true.
+Proof. intros H. apply (alli_from_of_nth f d l 0). exact H. Qed.
+Lemma set_bad_false ms : set_bad ms false = ms.
+Proof. destruct ms; unfold set_bad; cbn. rewrite orb_false_r. reflexivity. Qed.
+Lemma memn_In x l : memn x l = true <-> In x l.
+Proof.
+  induction l as [|y l IH]; cbn; [split; [discriminate|contradiction]|].
+  rewrite orb_true_iff, IH, Nat.eqb_eq. split; intros [H|H]; auto.
+Qed.
+Lemma mapi_len {A B} (f : nat -> A -> B) l : length (mapi f l) = length l.
+Proof. apply mapi_from_len. Qed.
+
+Lemma mk_CIchg ms ms' t t' : grows_to ms ms' -> CI ms t -> m_isadd t = false ->
+  m_isadd t' = false -> m_nest t' = m_nest t -> m_grown t' = false -> length (m_main t') = length (m_main t) ->
+  m_redo t' = m_redo t -> m_wrote t' = m_wrote t -> m_tgt t' = m_tgt t ->
+  (let M := fun j => nth j (m_main t') dflt in
+   let g := m_prev t' in
+   match m_pc t' with
+  | MIdle => m_walks t' = [] /\ forall j, (j < nc ms)%nat -> t_pc (M j) = CIdle /\ t_tgt (M j) = NewFile
+  | MStore => m_walks t' = [] /\ forall j, (j < nc ms)%nat -> t_pc (M j) = CStore /\ t_tgt (M j) = NewFile
+  | MReload => m_walks t' = [] /\ forall j, (j < nc ms)%nat -> chg g (M j) /\ t_pc (M j) = IvLoad
+  | MHead => m_walks t' = [mkW [] [] PInv None] /\ forall j, (j < nc ms)%nat -> chg g (M j) /\ t_pc (M j) = IvLoad
+  | MRun => exists ph pre rest, m_walks t' = [mkW rest (pre ++ m_c t' :: rest) ph None] /\ m_role t' = RMain /\
+      snap_ok ms' (pre ++ m_c t' :: rest) /\
+      forall j, (j < nc ms)%nat -> chg g (M j) /\ wstate ph pre (Some (m_c t')) rest (pre ++ m_c t' :: rest) j (M j)
+  | MNext => exists ph pre rest, m_walks t' = [mkW rest (pre ++ rest) ph None] /\
+      snap_ok ms' (pre ++ rest) /\
+      forall j, (j < nc ms)%nat -> chg g (M j) /\ wstate ph pre None rest (pre ++ rest) j (M j)
+  | MClose => exists w gg, m_walks t' = [w] /\ w_own w = None /\ g = Some gg /\
+      forall j, (j < nc ms)%nat -> t_pc (M j) = CClose /\ t_prev (M j) = Some gg
+  | MDone => m_walks t' = [] /\ forall j, (j < nc ms)%nat -> t_pc (M j) = Done
+  | _ => False
+  end) -> CI ms' t'.
+Proof.
+  intros [N C] (L & Ne & Gr & X) Ea E1 E2 E3 E4 E5 E6 E7 E8. rewrite Ea in X. destruct X as (A1 & A2 & A3 & _).
+  unfold CI. rewrite E1, E2, E3, E4, N. repeat (split; [first [assumption|reflexivity]|]).
+  unfold CIchg. rewrite E5, E6, E7, N. repeat (split; [first [assumption|reflexivity]|]). exact E8.
+Qed.
+
+Lemma nodup_mid (pre : list nat) c rest : NoDup (pre ++ c :: rest) -> ~ In c pre /\ ~ In c rest.
+Proof. intros H. apply NoDup_remove_2 in H. split; intros X; apply H; apply in_or_app; auto. Qed.
+
+Lemma core_CI_chg ms t ms' t' : MW ms -> CI ms t -> m_isadd t = false ->
+  mstep_core ms t = (ms', t') -> step_ok ms t ms' t'.
+Proof.
+  intros W I0 Ea H. pose proof I0 as (L & Ne & Gr & X). rewrite Ea in X. destruct X as (A1 & A2 & A3 & A8).
+  pose proof (MW_MS _ W) as S. pose proof S as (M1 & M4 & M5).
+  pose proof (fun ms' t' G => mk_CIchg ms ms' t t' G I0 Ea) as MK.
+  assert (ND : forall j, thr_step ms j dflt = dflt) by reflexivity.
+  unfold mstep_core in H. destruct (m_pc t) eqn:Hpc; try contradiction.
+  - (* MIdle *)
+    destruct A8 as [B1 B2]. rewrite Ea in H. cbv iota in H. injection H as <- <-.
+    assert (F : forallb (fun u => pc_is (t_pc u) CIdle) (m_main t) = true).
+    { apply (forallb_of_nth _ dflt). intros j Hj. rewrite L in Hj. rewrite (proj1 (B2 j Hj)). reflexivity. }
+    rewrite F. cbn [negb]. rewrite set_chk_false.
+    unfold step_ok. repeat (split; [reflexivity|]). split; [|split; [apply grows_refl|split; [exact S|split; reflexivity]]].
+    apply MK; msimp; auto; [apply grows_refl | apply mapi_len |].
+    split; [exact B1|]. intros j Hj. rewrite nth_mapi by exact ND. destruct (B2 j Hj). apply thr_idle_changer; assumption.
+  - (* MRun: the walk visits counter m_c *)
+    destruct A8 as (ph & pre & rest & B1 & B2 & B3 & B4). cbv zeta in H. rewrite B2 in H. cbn [gett] in H. rewrite B1 in H.
+    set (c := m_c t) in *.
+    destruct B3 as [SN SC]. destruct (SC c ltac:(apply in_or_app; right; left; reflexivity)) as [Hc Hcl].
+    destruct (nodup_mid _ _ _ SN) as [NP NR].
+    assert (Hf : s_full (proj c ms) = false) by exact M5.
+    destruct (B4 c Hc) as [[K1 K2] WS].
+    destruct (step_thread np0 (proj c ms) (nth c (m_main t) dflt)) as [s' u'] eqn:Es.
+    assert (D : (match ph with PInv => inI u' \/ t_pc u' = RfLoad | PRef => pcR (t_pc u') = true \/ fin u' end) /\
+                chg (m_prev t) u' /\
+                file_part s' = file_part (proj c ms) /\ length (s_cells s') = length (s_cells (proj c ms)) /\
+                pc_is (t_pc (nth c (m_main t) dflt)) LLook2 && pc_is (t_pc u') GIvLoad = false /\
+                pc_is (t_pc (nth c (m_main t) dflt)) CStore || pc_is (t_pc (nth c (m_main t) dflt)) CClose || pc_is (t_pc (nth c (m_main t) dflt)) GClose = false).
+    { destruct ph; cbn [wstate] in WS; destruct WS as (_ & WC & _); specialize (WC eq_refl).
+      - destruct (stepI _ _ _ _ _ Es WC) as (D1 & D2 & D3 & D4 & D5).
+        destruct (inI_not _ WC) as (N1 & N2 & N3 & N4 & N5 & N6 & N7).
+        rewrite N6, N2, N3, N4. unfold chg. repeat split; try congruence; try exact D1.
+      - destruct (stepR _ _ _ _ _ Es WC K1 Hf) as (D1 & D2 & D3 & D4 & D5).
+        destruct (pcR_not _ WC) as (N1 & N2 & N3 & N4 & N5 & N6).
+        rewrite N2, N3, N4. unfold chg. repeat split; try congruence; try exact D1.
+        destruct D1 as [D1|D1]; [rewrite (proj1 (pcR_not _ D1)); apply andb_false_r|].
+        destruct (fin_pc _ D1) as [[X _]|[X _]]; rewrite X; apply andb_false_r. }
+    destruct D as (D1 & D2 & D4 & D5 & D6 & D7).
+    destruct (inj_shared c ms s' Hc S D4 D5) as [G S'].
+    rewrite D6 in H. cbn [andb] in H. rewrite D7, set_chk_false in H.
+    assert (IO : is_own (mkW rest (pre ++ c :: rest) ph None) c = false) by reflexivity.
+    unfold visit_ended in H. rewrite IO in H. cbn [w_ph] in H.
+    (* the other counters' threads are untouched *)
+    assert (OT : forall j, j <> c -> nth j (upd (m_main t) c u') dflt = nth j (m_main t) dflt) by (intros j Hj; apply nth_upd_other; exact Hj).
+    assert (SM : nth c (upd (m_main t) c u') dflt = u') by (apply nth_upd_same; rewrite L; exact Hc).
+    assert (ended : bool) by exact true.
+    destruct (match ph with PInv => pc_is (t_pc u') RfLoad | PRef => pc_is (t_pc u') CClose || pc_is (t_pc u') Done end) eqn:Ev;
+      injection H as <- <-; (unfold step_ok; repeat (split; [reflexivity|]); split; [|split; [exact G|split; [exact S'|split; reflexivity]]]);
+      apply MK; msimp; auto; try (rewrite upd_len; reflexivity).
+    + (* the visit has ended: MNext *)
+      rewrite B1. exists ph, (pre ++ [c]), rest. rewrite <- app_assoc. cbn [app]. split; [reflexivity|].
+      split; [eapply snap_ok_mono; [exact G | split; assumption]|].
+      intros j Hj. destruct (Nat.eq_dec j c) as [->|Nj].
+      * rewrite SM. split; [exact D2|]. destruct ph; cbn [wstate].
+        -- repeat split; try (intros X; exfalso; auto; fail); try discriminate.
+           ++ intros _. destruct D1 as [[X|X]|X]; [rewrite X in Ev; discriminate | rewrite X in Ev; discriminate | exact X].
+           ++ intros X. exfalso. apply X. apply in_or_app; right; left; reflexivity.
+        -- repeat split; try (intros X; exfalso; auto; fail); try discriminate.
+           ++ intros _. destruct D1 as [X|X]; [|exact X]. destruct (pcR_not _ X) as (_ & _ & Q1 & _ & Q2 & _). rewrite Q1, Q2 in Ev. discriminate.
+           ++ intros X. exfalso. apply X. apply in_or_app; right; left; reflexivity.
+      * rewrite (OT j Nj). destruct (B4 j Hj) as [Kj Wj]. split; [exact Kj|].
+        destruct ph; cbn [wstate] in *; destruct Wj as (W1 & W2 & W3 & W4); repeat split; auto; try discriminate;
+          intros X; apply in_app_or in X as [X|[X|[]]]; auto; congruence.
+    + (* still visiting *)
+      rewrite Hpc, B1. exists ph, pre, rest. split; [reflexivity|]. split; [exact B2|].
+      split; [eapply snap_ok_mono; [exact G | split; assumption]|].
+      intros j Hj. destruct (Nat.eq_dec j c) as [->|Nj].
+      * rewrite SM. split; [exact D2|]. destruct ph; cbn [wstate].
+        -- repeat split; try (intros X; exfalso; auto; fail).
+           ++ intros _. destruct D1 as [X|X]; [exact X | rewrite X in Ev; discriminate].
+           ++ intros X. exfalso. apply X. apply in_or_app; right; left; reflexivity.
+        -- repeat split; try (intros X; exfalso; auto; fail).
+           ++ intros _. destruct D1 as [X|X]; [exact X|]. destruct (fin_pc _ X) as [[Y _]|[Y _]]; rewrite Y in Ev; discriminate.
+           ++ intros X. exfalso. apply X. apply in_or_app; right; left; reflexivity.
+      * rewrite (OT j Nj). destruct (B4 j Hj) as [Kj Wj]. split; [exact Kj|].
+        destruct ph; cbn [wstate] in *; destruct Wj as (W1 & W2 & W3 & W4); repeat split; auto; intros X; injection X as X; congruence.
+  - (* MStore *)
+    destruct A8 as [B1 B2]. cbv zeta in H. injection H as <- <-.
+    assert (F1 : forallb (fun u => pc_is (t_pc u) CStore && tgt_eqb (t_tgt u) (m_tgt t)) (m_main t) = true).
+    { apply (forallb_of_nth _ dflt). intros j Hj. rewrite L in Hj. destruct (B2 j Hj) as [-> ->]. rewrite A3. reflexivity. }
+    assert (F2 : forallb (fun c => Nat.eqb (length (c_cells c)) (ms_nf ms)) (ms_ctrs ms) = true).
+    { apply forallb_forall. intros c Hc. rewrite Forall_forall in M4. apply Nat.eqb_eq. apply M4. exact Hc. }
+    rewrite F1, F2, A3, L. unfold nc. rewrite Nat.eqb_refl. cbn [andb negb]. rewrite set_chk_false.
+    assert (G : grows_to ms (store_new ms false)).
+    { split; [unfold nc, store_new; cbn; apply map_length | auto]. }
+    unfold step_ok. repeat (split; [reflexivity|]). split; [|split; [exact G|split; [|split; reflexivity]]].
+    + apply MK; msimp; auto; [apply mapi_len|].
+      split; [exact B1|]. intros j Hj. rewrite nth_mapi by exact ND. destruct (B2 j Hj) as [P1 P2].
+      destruct (thr_store ms j _ P1 P2) as (Q1 & Q2 & Q3). unfold chg. auto.
+    + unfold MS, nc, store_new. cbn. rewrite map_length. split; [exact M1|]. split; [|reflexivity].
+      apply Forall_forall. intros c Hc. apply in_map_iff in Hc as (c0 & <- & Hc0). cbn. rewrite app_length. cbn.
+      rewrite Forall_forall in M4. rewrite (M4 c0 Hc0). lia.
+  - (* MReload *)
+    destruct A8 as [B1 B2]. injection H as <- <-.
+    unfold step_ok. repeat (split; [reflexivity|]). split; [|split; [apply grows_refl|split; [exact S|split; reflexivity]]].
+    apply MK; msimp; auto; [apply grows_refl|]. rewrite B1. split; [reflexivity|exact B2].
+  - (* MHead: invalidateCounters loads the head of the list *)
+    destruct A8 as [B1 B4]. destruct W as (_ & W2 & W3 & _).
+    rewrite B1 in H. cbv zeta in H. cbn [w_own] in H.
+    assert (OK : alli (fun j u => memn j (ms_list ms) || false && is_own (mkW [] [] PInv None) j || pc_is (t_pc u) IvLoad) (m_main t) = true).
+    { apply (alli_of_nth _ dflt). intros j Hj. rewrite L in Hj. rewrite (proj2 (B4 j Hj)). apply orb_true_r. }
+    rewrite OK in H. cbn [negb] in H. rewrite set_chk_false, set_bad_false in H. injection H as <- <-.
+    set (sk := fun (j : nat) (u : thread) => if memn j (ms_list ms) || false && is_own (mkW [] [] PInv None) j then u else skip_thread u).
+    assert (SKD : forall j, sk j dflt = dflt) by (intros j; unfold sk; destruct (memn j (ms_list ms) || _); reflexivity).
+    assert (MJ : forall j, (j < nc ms)%nat ->
+              chg (m_prev t) (nth j (mapi sk (m_main t)) dflt) /\
+              (In j (ms_list ms) -> t_pc (nth j (mapi sk (m_main t)) dflt) = IvLoad) /\
+              (~ In j (ms_list ms) -> fin (nth j (mapi sk (m_main t)) dflt))).
+    { intros j Hj. rewrite nth_mapi by exact SKD. destruct (B4 j Hj) as [[K1 K2] P]. unfold sk. cbn [andb]. rewrite orb_false_r.
+      destruct (memn j (ms_list ms)) eqn:Em.
+      - split; [split; assumption|]. split; [intros _; exact P|]. intros X. exfalso. apply X. apply memn_In. exact Em.
+      - unfold skip_thread. destruct (to_close_keeps (nth j (m_main t) dflt)) as [Q1 Q2].
+        split; [split; congruence|]. split; [|intros _; apply fin_to_close].
+        intros X. apply memn_In in X. congruence. }
+    unfold step_ok. repeat (split; [reflexivity|]). split; [|split; [apply grows_refl|split; [exact S|]]].
+    2:{ unfold advance, after_walk. cbn. destruct (ms_list ms); cbn; [destruct (m_prev t)|]; split; reflexivity. }
+    unfold advance. cbn [m_walks with_walks w_rest w_snap w_ph w_own visit_role].
+    destruct (ms_list ms) as [|c rest'] eqn:El.
+    + unfold after_walk. cbn [w_own m_prev with_walks with_main]. destruct (m_prev t) as [gg|] eqn:Ep.
+      * apply MK; msimp; auto; [apply grows_refl | apply mapi_len |].
+        eexists. exists gg. split; [reflexivity|]. split; [reflexivity|]. split; [exact Ep|].
+        intros j Hj. destruct (MJ j Hj) as [[_ P] [_ F]]. specialize (F (fun x => x)). unfold fin in F.
+        fold sk. rewrite P in F. split; [exact F | exact P].
+      * apply MK; msimp; auto; [apply grows_refl | apply mapi_len |].
+        split; [reflexivity|]. intros j Hj. destruct (MJ j Hj) as [[_ P] [_ F]]. specialize (F (fun x => x)). unfold fin in F.
+        fold sk. rewrite P in F. exact F.
+    + apply MK; msimp; auto; [apply grows_refl | apply mapi_len |].
+      exists PInv, [], rest'. cbn [app]. split; [reflexivity|]. split; [reflexivity|].
+      split; [split; [exact W3 | exact W2]|].
+      intros j Hj. destruct (MJ j Hj) as [K [P F]]. fold sk. split; [exact K|]. cbn [wstate].
+      split; [intros []|]. split; [intros X; injection X as <-; left; apply P; left; reflexivity|].
+      split; [intros X; apply P; right; exact X | exact F].
+  - (* MNext: c.next.Load(): on to the next counter, the second loop, or the close *)
+    destruct A8 as (ph & pre & rest & B1 & B3 & B4). injection H as <- <-.
+    assert (FIN : (forall j, (j < nc ms)%nat -> chg (m_prev t) (nth j (m_main t) dflt) /\ fin (nth j (m_main t) dflt)) ->
+                  forall w, w_own w = None -> CI ms (after_walk t w [])).
+    { intros FA w Ho. unfold after_walk. rewrite Ho. destruct (m_prev t) as [gg|] eqn:Ep.
+      - apply MK; msimp; auto; [apply grows_refl|]. exists w, gg. repeat split; auto.
+        + destruct (FA j H) as [[_ P] F]. unfold fin in F. rewrite P in F. exact F.
+        + destruct (FA j H) as [[_ P] F]. exact P.
+      - apply MK; msimp; auto; [apply grows_refl|]. split; [reflexivity|]. intros j Hj.
+        destruct (FA j Hj) as [[_ P] F]. unfold fin in F. rewrite P in F. exact F. }
+    unfold step_ok. repeat (split; [reflexivity|]). split; [|split; [apply grows_refl|split; [exact S|]]].
+    2:{ unfold advance, after_walk. rewrite B1. cbn. destruct rest; cbn; [|split; reflexivity].
+        destruct ph; [destruct (pre ++ [])|]; cbn; try (split; reflexivity); destruct (m_prev t); split; reflexivity. }
+    unfold advance. rewrite B1. cbn [w_rest w_snap w_ph w_own visit_role].
+    destruct rest as [|c rest'].
+    + rewrite app_nil_r in *. destruct ph.
+      * destruct pre as [|c rest'].
+        -- apply FIN; [|reflexivity]. intros j Hj. destruct (B4 j Hj) as [K Wj]. split; [exact K|].
+           cbn [wstate] in Wj. apply Wj. intros [].
+        -- apply MK; msimp; auto; [apply grows_refl|].
+           exists PRef, [], rest'. cbn [app]. split; [reflexivity|]. split; [reflexivity|]. split; [exact B3|].
+           intros j Hj. destruct (B4 j Hj) as [K Wj]. split; [exact K|]. cbn [wstate] in *. destruct Wj as (W1 & W2 & W3 & W4).
+           split; [intros []|]. split; [intros X; injection X as <-; rewrite W1 by (left; reflexivity); reflexivity|].
+           split; [intros X; apply W1; right; exact X | exact W4].
+      * apply FIN; [|reflexivity]. intros j Hj. destruct (B4 j Hj) as [K Wj]. split; [exact K|].
+        cbn [wstate] in Wj. destruct Wj as (W1 & W2 & W3 & W4). destruct (in_dec Nat.eq_dec j pre); auto.
+    + apply MK; msimp; auto; [apply grows_refl|].
+      exists ph, pre, rest'. split; [reflexivity|]. split; [reflexivity|]. split; [exact B3|].
+      intros j Hj. destruct (B4 j Hj) as [K Wj]. split; [exact K|].
+      destruct ph; cbn [wstate] in *; destruct Wj as (W1 & W2 & W3 & W4); repeat split; auto.
+      * intros X. injection X as <-. left. apply W3. left. reflexivity.
+      * intros X. apply W3. right. exact X.
+      * intros X. injection X as <-. rewrite W3 by (left; reflexivity). reflexivity.
+      * intros X. apply W3. right. exact X.
+  - (* MClose *)
+    destruct A8 as (w & gg & B1 & B2 & B3 & B4). rewrite B1, B2, B3 in H. injection H as <- <-.
+    assert (F : forallb (fun u => pc_is (t_pc u) CClose && onat_eqb (t_prev u) (Some gg)) (m_main t) = true).
+    { apply (forallb_of_nth _ dflt). intros j Hj. rewrite L in Hj. destruct (B4 j Hj) as [-> ->]. cbn. rewrite Nat.eqb_refl. reflexivity. }
+    rewrite F. cbn [negb]. rewrite set_chk_false.
+    assert (G : grows_to ms (add_closed ms gg)) by (split; [reflexivity|auto]).
+    unfold step_ok. repeat (split; [reflexivity|]). split; [|split; [exact G|split; [exact S|split; reflexivity]]].
+    apply MK; msimp; auto; [apply mapi_len|].
+    split; [reflexivity|]. intros j Hj. rewrite nth_mapi by exact ND. destruct (B4 j Hj) as [P1 P2]. exact (thr_close ms j _ gg P1 P2).
+  - (* MDone *)
+    injection H as <- <-.
+    unfold step_ok. repeat (split; [reflexivity|]). split; [|split; [apply grows_refl|split; [exact S|split; reflexivity]]].
+    apply MK; msimp; auto; [apply grows_refl|]. rewrite Hpc. exact A8.
+Qed.
